@@ -56,6 +56,84 @@ Proof. intros. unfold {T}, subdivide_segment, lin_t.
   cbv [group3 vadd vscale vsub vx vy vz n1 nfrac]; rops. f_equal.
   list_eq ltac:(apply V3_ext; first [ring | field; lra]). Qed.""" % (n, "true" if endpoint else "false"),
                 imports=_IMPORTS))
+    return ks + _list_kernels()
+
+
+# list-level ties at fixed small sizes (symbolic vertices; square roots kept as atoms)
+_LIMPORTS = [("PW.model", "M_polyline_base"), ("PW.model", "M_segment"), ("PW.model", "M_polyline_nearest"),
+           ("PW.model", "M_polyline_length"), ("PW.proofs", "P_vec"), ("PW.proofs", "P_polyline_length"),
+           ("PW.proofs", "P_polyline_tie")]
+_V = lambda i: "(V3 v%d v%d v%d)" % (3 * i, 3 * i + 1, 3 * i + 2)
+_PL = lambda n, closed: "(MkPolyline [%s] %s)" % ("; ".join(_V(i) for i in range(n)), "true" if closed else "false")
+_UNF = ("cbv [segment_lengths total_length path_centroid path_centroid_segs pl_segments pv pclosed zip app map last seg_len seg_mid "
+       "seg_vector vsum nsum fold_left fst snd vnorm vnorm2 vnormalize vdivs vadd vsub vscale vdot vzero vlist vx vy vz n0 n1 n2 nfrac "
+       "point_along_one pap_walk path_end rmap flat_map]; rops")
+
+
+def _list_kernels():
+    from polliwog import Polyline
+    ks = []
+    P4 = [[0., 0, 0], [3, 4, 0], [3, 4, 12], [5, 4, 12]]
+    ks.append(Kernel(
+        "lengths_centroid_n4", {"v": P4},
+        lambda v: (Polyline(v).segment_lengths, Polyline(v).total_length, Polyline(v).path_centroid),
+        """Lemma {T}_ok : forall {vars} : R, {T}_path ROps {vars} ->
+  Ok ({T} ROps {vars}) =
+  rmap (fun c => segment_lengths ROps %s ++ [total_length ROps %s] ++ vlist c) (path_centroid ROps %s).
+Proof. intros {vars} Hpath. unfold {T}_path in Hpath; rops. path_facts Hpath. revert Hp.
+  unfold {T}. %s. sqrt_atoms. intros Hp.
+  match goal with |- context [Reqb ?a 0] => destruct (Reqb_spec a 0) as [Hz|Hz]; [exfalso; apply Hp; lra|] end.
+  cbv [rmap app]. f_equal. list_eq ltac:(first [reflexivity | ring | (field; lra)]). Qed.""" % (_PL(4, False), _PL(4, False), _PL(4, False), _UNF),
+        imports=_LIMPORTS))
+    DEC = ("repeat match goal with\n"
+           "  | |- context [Rltb ?a ?b] => destruct (Rltb_spec a b); try (exfalso; lra)\n"
+           "  | |- context [Rleb ?a ?b] => destruct (Rleb_spec a b); try (exfalso; lra)\n"
+           "  end")
+    P3 = [[0., 0, 0], [3, 4, 0], [3, 4, 12]]
+    for name, closed, f, fcoq in (("point_along_open_mid", False, 0.5, "(1 / 2)"), ("point_along_closed_mid", True, 0.25, "(1 / 4)"),
+                                  ("point_along_open_end", False, 1.0, "1"), ("point_along_closed_end", True, 1.0, "1")):
+        ks.append(Kernel(
+            name, {"v": P3},
+            (lambda closed, f: lambda v: Polyline(v, is_closed=closed).point_along_path(f))(closed, f),
+            """Lemma {T}_ok : forall {vars} : R, {T}_path ROps {vars} ->
+  Some (group3 ({T} ROps {vars})) = option_map (fun p => [p]) (point_along_one ROps %s %s).
+Proof. intros {vars} Hpath. unfold {T}_path in Hpath; rops. path_facts Hpath. unfold nfrac in *; rops.
+  unfold {T}. %s. sqrt_atoms. %s.
+  all: cbv [option_map group3]; f_equal; list_eq ltac:(apply V3_ext; first [reflexivity | ring | (field; lra)]). Qed.""" % (_PL(3, closed), fcoq, _UNF, DEC),
+            imports=_LIMPORTS))
+    BIS = ("cbv [bisect existsb negb Nat.ltb Nat.leb length pl_segments pv pclosed zip app map last edge_end andb orb Nat.eqb nth_error "
+           "seg_mid insert_multi_from points_at filter fst snd cum_offsets has_insert seq nth Nat.add Nat.sub group3 "
+           "vdivs vadd vzero vx vy vz n0 n1 n2]; rops")
+    for name, closed, idx, orig, ins in (("bisect_open_one", False, [1], [0, 1, 3], [2]),
+                                         ("bisect_closed_two", True, [2, 0], [1, 3, 4], [0, 2])):
+        nats = lambda l: "[%s]" % "; ".join("%d%%nat" % i for i in l)
+        ks.append(Kernel(
+            name, {"v": P3},
+            (lambda closed, idx: lambda v: (lambda r: (r[0].v, r[1], r[2]))(
+                Polyline(v, is_closed=closed).with_segments_bisected(np.array(idx), ret_new_indices=True)))(closed, idx),
+            """Lemma {T}_ok : forall {vars} : R,
+  bisect ROps %s %s = Ok (MkPolyline (group3 ({T} ROps {vars})) %s, %s, %s).
+Proof. intros. unfold {T}. %s.
+  do 3 f_equal; try (list_eq ltac:(apply V3_ext; first [reflexivity | ring | field])). Qed.""" % (
+                _PL(3, closed), nats(idx), "true" if closed else "false", nats(orig), nats(ins), BIS),
+            imports=_LIMPORTS,
+            expect_structure={"tuple": [{"shape": [3 + len(idx), 3], "data": ["e"] * (3 * (3 + len(idx)))},
+                                        {"shape": [3], "dtype": "int64", "data": orig},
+                                        {"shape": [len(idx)], "dtype": "int64", "data": ins}]}))
+    from polliwog.segment import subdivide_segments
+    SEG = ("cbv [subdivide_segments open_segments subdiv_seg_rows zip flat_map app map seq last repeat seg_vector fst snd group3 "
+           "vnorm vnorm2 vdivs vadd vsub vscale vdot vx vy vz n0 n1 Z.of_nat Pos.of_succ_nat Pos.succ]; rops")
+    ks.append(Kernel(
+        "subdivide_segments_n3", {"v": P3}, lambda v: subdivide_segments(v, 2),
+        """Lemma {T}_ok : forall {vars} : R,
+  vnorm ROps (vsub ROps %s %s) <> 0 -> vnorm ROps (vsub ROps %s %s) <> 0 ->
+  map Some (group3 ({T} ROps {vars})) = subdivide_segments ROps [%s; %s; %s] 2.
+Proof. intros {vars} H1 H2. revert H1 H2. cbv [vnorm vnorm2 vsub vdot vx vy vz]; rops. unfold {T}. %s.
+  sqrt_atoms. intros H1 H2.
+  repeat match goal with |- context [Reqb ?a 0] => destruct (Reqb_spec a 0); [contradiction|] end.
+  cbv [map]. list_eq ltac:(f_equal; apply V3_ext; first [reflexivity | ring | (field; assumption)]). Qed.""" % (
+            _V(1), _V(0), _V(2), _V(1), _V(0), _V(1), _V(2), SEG),
+        imports=_LIMPORTS))
     return ks
 
 
